@@ -33,7 +33,7 @@ theorem or4_zero_iff (a b c d : BitVec 64) :
     Gen.utf8_non_ascii ((((0#64 ||| a) ||| b) ||| c) ||| d) = 0#64 ↔
       Gen.utf8_non_ascii a = 0#64 ∧ Gen.utf8_non_ascii b = 0#64 ∧ Gen.utf8_non_ascii c = 0#64 ∧
         Gen.utf8_non_ascii d = 0#64 := by
-  simp only [Gen.utf8_non_ascii]; bv_decide
+  simp only [Gen.utf8_non_ascii]; bv_decide (timeout := 300)
 
 theorem take32 (l : List Byte) :
     l.take 32 = l.take 8 ++ ((l.drop 8).take 8 ++ ((l.drop 16).take 8 ++ (l.drop 24).take 8)) := by
@@ -41,7 +41,7 @@ theorem take32 (l : List Byte) :
   rw [e, List.take_add, List.take_add, List.take_add]
   simp [List.drop_drop]
 
-theorem nz_ctz_lt (x : BitVec 64) (h : x ≠ 0#64) : x.ctz >>> 3 < 8#64 := by bv_decide
+theorem nz_ctz_lt (x : BitVec 64) (h : x ≠ 0#64) : x.ctz >>> 3 < 8#64 := by bv_decide (timeout := 300)
 
 /-- What the ASCII-skipping head of one `accepts` iteration does: `continue` after skipping `k ≥ 1`
 ASCII bytes, or fall through to `validate_sequence` after skipping `k` ASCII bytes with input left. -/
